@@ -118,8 +118,7 @@ func registerZZ(in *Interp) {
 		scale := in.intArg(a[1], "scale")
 		t := in.TC.Declare(smtName(nm), IntSort)
 		in.run.inputs = append(in.run.inputs, Input{Name: nm, Kind: "decimal", Term: t, Aux: int(scale)})
-		r := in.TC.App(RealSort, "/", in.TC.App(RealSort, "to_real", t), RealConstRat(pow10Rat(scale)))
-		return Dec{T: r}
+		return Dec{I: t, S: scale}
 	}
 	I[zz+"Day"] = func(in *Interp, fr *frame, fn *ssa.Function, a []value) value {
 		nm := in.run.uniq(strArg(a[0]))
